@@ -835,6 +835,8 @@ func RunC05(t *kernel.Tape, o Opts) *Result {
 		fns[i] = func(*kernel.Task) {
 			for j, op := range programs[i] {
 				s.Yield(kernel.KindOp, "op-start", false)
+				s.SetNote(i, noteOp, int64(j+1))
+				s.SetNote(i, noteFired, 0)
 				runOp(perTask[i], i, op)
 				s.Yield(kernel.KindOp, "op-end", false)
 				if !concurrent && !s.IsAborted() {
@@ -868,9 +870,11 @@ func RunC05(t *kernel.Tape, o Opts) *Result {
 		fClient.s = s
 	}
 	okRun := s.Run(fns)
-	for _, c := range sc.cancels {
-		if c != nil {
-			c()
+	if okRun {
+		for _, c := range sc.cancels {
+			if c != nil {
+				c()
+			}
 		}
 	}
 	res.Yields += s.Yields
@@ -879,6 +883,20 @@ func RunC05(t *kernel.Tape, o Opts) *Result {
 	res.SchedHash = fmt.Sprintf("%016x", s.Hash)
 	if !okRun {
 		res.Status = "stalled"
+		if s.Deadlock {
+			res.Config = sname + "/deadlock"
+			// the tasks did not join: only kernel notes and what was fixed
+			// before the fork may be read here
+			if hang(res, s, ntasks, func(task int) bool { return s.Note(task, noteFired) != 0 }, func(task int) string {
+				if j := int(s.Note(task, noteOp)); j > 0 && j <= len(programs[task]) {
+					vk := spec.VK(programs[task][j-1].Root.P, programs[task][j-1].Root.V)
+					return fmt.Sprintf("task %d: Resolve(%s %s)", task, vk.Name, vk.Version)
+				}
+				return fmt.Sprintf("task %d", task)
+			}, "hang:"+sname) {
+				res.Status = "hang"
+			}
+		}
 		return res
 	}
 	if s.Foreign {
